@@ -2,9 +2,9 @@ SPECIFICATION MCSpec
 CONSTANTS
   MaxListeners = 3
   NB = 4
-  MaxOps = 3
+  MaxOps = 4
   EmitEvery = 1
-  LieMode = FALSE
+  LieMode = TRUE
   SyncListeners = 0
 CONSTRAINT Bound
 VIEW View
